@@ -42,13 +42,14 @@ def build(sess, name="x"):
     caddr, saddr = sess.addr.get("c"), sess.addr["s"]
     if caddr is None:
         return None
-    E = name + "env"
+    E, ES = name + "envc", name + "envs"
     C, S = name + "c", name + "s"
-    lines = [env_line(E, cfg, sess.settings),
+    cfg_s = getattr(sess, "cfg_s", cfg)
+    lines = [env_line(E, cfg, sess.settings), env_line(ES, cfg_s, getattr(sess, "settings_s", sess.settings)),
              "cli %s %s %s %d %s %d" % (C, E, caddr[0], caddr[1], saddr[0], saddr[1]),
-             "srv %s %s %s %d 0" % (S, E, saddr[0], saddr[1]),
-             "bind %s 1 10 %s" % (S, b"server key".hex() if cfg.credentials else "none")]
-    kinds = [("setup", None)] * 4
+             "srv %s %s %s %d 0" % (S, ES, saddr[0], saddr[1]),
+             "bind %s 1 10 %s" % (S, getattr(sess, "server_key", b"server key").hex() if cfg_s.credentials else "none")]
+    kinds = [("setup", None)] * 5
     real = {"c": [], "s": []}
     srv_key = "%s:%d:%d:%d" % (caddr[0], caddr[1], 15, 10)
     rc = sess.rnd.get("c")
@@ -70,10 +71,11 @@ def build(sess, name="x"):
             if not alive:
                 continue
             if dst == caddr:
-                add("advance %s %d" % (C, ticks(t)), ("advance", "c"))
+                # timers due strictly before t fire first; on an exact tie the datagram is handled first (shorter wake-up path)
+                add("advance %s %d" % (C, ticks(t) - 1), ("advance", "c"))
                 add("dgram %s %d %s %d %s" % (C, ticks(t), src[0], src[1], hx(data)), ("op", "c", ticks(t)))
             elif dst == saddr:
-                add("advance %s %d" % (S, ticks(t)), ("advance", "s"))
+                add("advance %s %d" % (S, ticks(t) - 1), ("advance", "s"))
                 add("dgram %s %d %s %d %s %d %d %d" % (S, ticks(t), src[0], src[1], hx(data), rs[0], rs[1], rs[2]), ("op", "s", ticks(t)))
         elif k == "inject":
             pass
@@ -98,6 +100,10 @@ def build(sess, name="x"):
                     add("send %s %d %s %d %s" % (ep, tk, conn, sub, hx(data)), ("op", side, tk))
                 else:
                     add("sendu %s %d %s %s" % (ep, tk, conn, hx(data)), ("op", side, tk))
+            elif op == "preset":
+                # white-box preset of the sequence space (wrap tests): mirrored in the model
+                ep, conn = (C, "c") if side == "c" else (S, srv_key)
+                add("preset %s %s %d %d" % (ep, conn, sub, data), ("setup2", None))
             elif op == "disconnect":
                 add("advance %s %d" % (C, tk), ("advance", "c"))
                 add("disconnect %s %d c" % (C, tk), ("op", "c", tk))
@@ -119,7 +125,7 @@ def model_stream(lines, kinds, outs):
     other = {"c": [], "s": []}
     errs = []
     for line, kind, out in zip(lines, kinds, outs):
-        if kind[0] == "setup":
+        if kind[0] in ("setup", "setup2"):
             if out != "ok":
                 errs.append((line, out))
             continue
